@@ -316,6 +316,7 @@ theorem execCmd_pobjOf (x : XCfg) (k : Bytes) (o : ObjE) (hwf : o.wf) (hk : o.ki
     rw [hv, lpPairs_blob es hes he]
     rfl
   | stream s => exact absurd rfl hk
+  | module2 id ops => exact absurd rfl hk
   | raw t b => exact absurd rfl hk
 
 end GunYu.Rdb
